@@ -37,7 +37,10 @@ func (w *World) readRows() map[string][]byte {
 // checkRows is the commit-order oracle: whatever a step changed in the sths
 // table must be, per log, a log-signed head that does not shrink and genuinely
 // extends the previously committed one. It also advances the reference model.
-func (w *World) checkRows() {
+func (w *World) checkRows() { w.checkRowsAt(w.s.Step(), w.s.Step()) }
+
+// checkRowsAt: the change (if any) took effect between stamps begin and end.
+func (w *World) checkRowsAt(begin, end int) {
 	s := w.s
 	cur := w.readRows()
 	ids := map[string][]byte{}
@@ -90,7 +93,7 @@ func (w *World) checkRows() {
 		}
 		w.known[h.key] = h
 		w.held[l.idx] = h
-		w.hist[l.idx] = append(w.hist[l.idx], histEnt{step: s.Step(), h: h})
+		w.hist[l.idx] = append(w.hist[l.idx], histEnt{step: end, begin: begin, h: h})
 		s.Logf("stored %s: (%s) -> (%s)", l.name, prev, h)
 	}
 	w.rows = cur
@@ -117,9 +120,30 @@ func (w *World) heldAt(l *logSpec, step int) *sth {
 
 // heldDuring lists what was held at any moment of [from, to] (nil stands for "nothing").
 func (w *World) heldDuring(l *logSpec, from, to int) []*sth {
+	if w.s.Timed {
+		return w.possiblyHeld(l, from, to)
+	}
 	out := []*sth{w.heldAt(l, from-1)}
 	for _, e := range w.hist[l.idx] {
 		if e.step >= from && e.step <= to {
+			out = append(out, e.h)
+		}
+	}
+	return out
+}
+
+// possiblyHeld (timed mode): entry i took effect at an unknown moment of
+// [begin_i, step_i] and was superseded when entry i+1 took effect; it may have
+// been the held head at some moment of [from, to] iff begin_i <= to and it was
+// not certainly superseded before from. nil stands for "nothing held".
+func (w *World) possiblyHeld(l *logSpec, from, to int) []*sth {
+	hist := w.hist[l.idx]
+	var out []*sth
+	if len(hist) == 0 || hist[0].step >= from {
+		out = append(out, nil)
+	}
+	for i, e := range hist {
+		if e.begin <= to && (i+1 == len(hist) || hist[i+1].step >= from) {
 			out = append(out, e.h)
 		}
 	}
@@ -214,7 +238,11 @@ func (w *World) judge(o *op) {
 		s.Logf("%s getsth -> %s%s", o.Party, o.Outcome, code)
 		s.Probe("getsth." + o.Outcome)
 		if o.Outcome == "notfound" && o.Log != nil && !o.Faulted {
-			if h := w.heldAt(o.Log, o.CallStep); h != nil {
+			at := o.CallStep
+			if s.Timed {
+				at-- // only commits certainly finished before the call began
+			}
+			if h := w.heldAt(o.Log, at); h != nil {
 				s.Violate("getsth-notfound-while-held", via(o), "%s getsth %s answered not-found although (%s) was held throughout the call", o.Party, o.Log.name, h)
 			}
 		}
@@ -257,6 +285,21 @@ func (w *World) judge(o *op) {
 		}
 	case "precond":
 		if o.Log == nil {
+			return
+		}
+		if s.Timed { // no linearization point is observed: any head possibly held during the call will do
+			list := w.heldDuring(o.Log, o.CallStep, o.RetStep)
+			nothing := false
+			for _, x := range list {
+				if x == nil {
+					nothing = true
+				}
+			}
+			if !nothing && !inHeld(list, h) {
+				s.Violate("refusal-not-answered-with-held", "timed/"+via(o), "%s update %s[%s] was refused with (%s), which the witness did not hold at any moment of the call", o.Party, o.CandKind, o.Cand.desc, h)
+				return
+			}
+			s.Probe("refused.precond")
 			return
 		}
 		var want *sth
